@@ -27,6 +27,7 @@ def nontrivial_case(c):
 
 def run_family(prop, tier, seed, replay, origin="writer", mc_cfg=None, level="model_checking", extra_rule="", also_indep=False):
     run = C.Run(prop, tier, seed, level)
+    replay_sparse = []
     d = C.outdir(prop)
     hb = C.build_harness()
     cases = os.path.join(d, "cases.ndjson")
@@ -34,10 +35,12 @@ def run_family(prop, tier, seed, replay, origin="writer", mc_cfg=None, level="mo
     mc = None
     if replay:
         rec = json.load(open(replay))
+        rc = [fl["replay_case"] for fl in rec["failures"] if fl.get("replay_case")]
         with open(cases, "w") as f:
-            for fl in rec["failures"]:
-                if fl.get("replay_case"):
-                    f.write(json.dumps(fl["replay_case"]) + "\n")
+            for c in rc:
+                if not c.get("sparse"):
+                    f.write(json.dumps(c) + "\n")
+        replay_sparse = [c for c in rc if c.get("sparse")]
     else:
         cfg = mc_cfg or ("mc/MC_C01_%s.cfg" % tier)
         mc = C.run_tlc("mc/MC_C01.tla", cfg, prop + "_mc", workers=8, replay_out=cases, timeout=2400)
@@ -94,6 +97,33 @@ def run_family(prop, tier, seed, replay, origin="writer", mc_cfg=None, level="mo
         collect(v2.fails, "random", None)
         run.traces += s2["cases"]
         run.evaluations += s2["cases"]
+    s3 = {"cases": 0, "not_completed": 0}
+    if (not replay and prop in ("C01", "C16")) or replay_sparse:
+        # sparse deep tile sets (two or three tiles far apart on levels 12..31), every case in its own process under an
+        # address-space and a time limit: work in proportion to a level's bounding box shows as an abort or a timeout
+        cases3 = os.path.join(d, "cases_sparse.ndjson")
+        uniq = []
+        if replay_sparse:
+            uniq = replay_sparse
+        else:
+            mc3 = C.run_tlc("mc/MC_Sparse.tla", "mc/MC_Sparse_%s.cfg" % origin, prop + "_mc_sparse", workers=1, replay_out=cases3, timeout=600)
+            C.require_clean(mc3, "MC_Sparse")
+            run.add_tlc(mc3)
+            for c in C.read_ndjson(cases3):
+                if c not in uniq:
+                    uniq.append(c)
+        with open(cases3, "w") as f:
+            for c in uniq:
+                f.write(json.dumps(c) + "\n")
+        t3 = os.path.join(d, "trace_sparse.ndjson")
+        s3 = C.run_harness(hb, ["isolated", "CONTAINER", cases3, t3, scratch, prop], timeout=6000,
+                           env_extra={"VERIF_ISOLATED_TIMEOUT": "120" if tier == "thorough" else "20"})
+        v3 = C.validate_trace("trace/Trace_Container.tla", "trace/Trace_Container.cfg", prop + "_trace_sparse", t3, timeout=3000, heap="8g")
+        run.add_tlc(v3)
+        collect(v3.fails, "sparse", uniq)
+        run.traces += s3["cases"]
+        run.evaluations += s3["cases"]
+        case_list = case_list + uniq
     nt = [c for c in case_list if nontrivial_case(c)]
     run.nontrivial = len({json.dumps(c, sort_keys=True) for c in nt})
     run.samples = nt[:2] + s2.get("samples", [])[:2]
@@ -102,10 +132,13 @@ def run_family(prop, tier, seed, replay, origin="writer", mc_cfg=None, level="mo
                 ".cfg (level 0, level-1/3 borders, both sides of the 256-block grid at level 9, zoom gaps) x container formats x "
                 "(tile format, compression) pairs" + (" x every layout choice of the independent encoders" if origin == "indep" else "")
                 + "; each case is materialised, decoded independently, opened by the real reader and judged by TLC; random: "
-                "tile sets of 40..20000 tiles in windows of up to 330x330 tiles on levels 0..31 with payload sizes around the de-dup threshold. "
+                "tile sets of 40..20000 tiles in windows of up to 330x330 tiles on levels 0..31 with payload sizes around the de-dup threshold; "
+                "sparse (C01, C16): 7 tile sets of 2-3 tiles far apart on levels 12..31 x formats, each in its own process under a 6 GiB "
+                "address-space limit and a time limit. "
                 "non-trivial = enumerated case with >= 2 tiles and (duplicate payloads or more blocks than levels or a zoom gap). "
                 + extra_rule)
-    run.extra = {"enumerated_cases": s1["cases"], "random_cases": s2["cases"], "random_tiles": s2.get("tiles", 0)}
+    run.extra = {"enumerated_cases": s1["cases"], "random_cases": s2["cases"], "random_tiles": s2.get("tiles", 0),
+                 "sparse_cases": s3["cases"], "sparse_not_completed": s3["not_completed"]}
     run.assumptions = ["flate2/brotli/rusqlite crates are trusted codecs for the independent decoder",
                        "payload identity is byte equality with the generated payload of that id"]
     return run.finish()
